@@ -201,6 +201,16 @@ def run(ctx):
     from harness import hang_search
     n_h, slow, hung = hang_search.search(total_timeout=90 if ctx.tier == "quick" else 300)
     evaluations += n_h
+    # accumulate-and-rescan in the chunked receiver (open known finding kf_c06_control_line_rescan): an
+    # unterminated chunk-size line / trailer delivered in many reads costs time quadratic in its length
+    rescan = [x for x in slow if x[0] == "chunked-reads"]
+    slow = [x for x in slow if x[0] != "chunked-reads"]
+    for site, hx, dt in rescan[:1]:
+        ctx.report("kf:kf_c06_control_line_rescan",
+                   "known defect (kf_c06_control_line_rescan): an unterminated chunk-size line / trailer of %s bytes delivered in %d-byte reads "
+                   "took %.2f s of CPU and twice the length takes about four times as long" % (hx.split("..x")[-1], hang_search.READ_SIZE, dt),
+                   {"kind": "hang", "site": site, "input_shape": hx[:40], "seconds": dt, "failing_input_found": True},
+                   kf_class="kf_c06_control_line_rescan")
     for site, hx, dt in slow[:3]:
         data = bytes.fromhex(hx)
         ctx.report("slow:%s:%s" % (site, hashlib.sha1(data).hexdigest()[:10]),
